@@ -121,9 +121,29 @@ fn execute(env: &Env, op: &ROp, expect_entries: usize) -> Result<Out, ErrInfo> {
         unsafe { &*(UnixStr::from_bytes_unchecked(g.as_ref()) as *const UnixStr) }
     };
     match op {
-        ROp::Write { p, data } => tfs::write(us(&mut g1, p), data).map(|()| Out::Unit).map_err(errinfo),
-        ROp::Read { p } => tfs::read(us(&mut g1, p)).map(Out::Bytes).map_err(errinfo),
-        ROp::ReadToString { p } => tfs::read_to_string(us(&mut g1, p)).map(|s| Out::Bytes(s.into_bytes())).map_err(errinfo),
+        ROp::Write { p, data } => {
+            // in a share of the cases (a function of the case, so that replays agree) the kernel takes the data in
+            // pieces: every write(2) is cut down to a part of the buffer, as a full disk, a size limit or a signal would
+            let _guard = PlanGuard;
+            if let Some(k) = short_write_piece(data) {
+                sc::verif::plan(vec![sc::verif::Rule { nr: Some(sc::nr::WRITE), nth: None, action: sc::verif::Action::ClampArg { idx: 2, max: k }, times: usize::MAX }]);
+            }
+            tfs::write(us(&mut g1, p), data).map(|()| Out::Unit).map_err(errinfo)
+        }
+        ROp::Read { p } => {
+            let _guard = PlanGuard;
+            if let Some(k) = short_read_piece(p) {
+                sc::verif::plan(vec![sc::verif::Rule { nr: Some(sc::nr::READ), nth: None, action: sc::verif::Action::ClampArg { idx: 2, max: k }, times: usize::MAX }]);
+            }
+            tfs::read(us(&mut g1, p)).map(Out::Bytes).map_err(errinfo)
+        }
+        ROp::ReadToString { p } => {
+            let _guard = PlanGuard;
+            if let Some(k) = short_read_piece(p) {
+                sc::verif::plan(vec![sc::verif::Rule { nr: Some(sc::nr::READ), nth: None, action: sc::verif::Action::ClampArg { idx: 2, max: k }, times: usize::MAX }]);
+            }
+            tfs::read_to_string(us(&mut g1, p)).map(|s| Out::Bytes(s.into_bytes())).map_err(errinfo)
+        }
         ROp::Copy { src, dst, pre, clamp } => {
             let s = us(&mut g1, src);
             let d = us(&mut g2, dst);
@@ -175,6 +195,16 @@ fn execute(env: &Env, op: &ROp, expect_entries: usize) -> Result<Out, ErrInfo> {
     }
 }
 
+/// Some(piece): the kernel accepts at most that many bytes per write(2) while this buffer is written
+pub fn short_write_piece(data: &[u8]) -> Option<usize> {
+    (data.len() >= 2 && data.len() % 4 != 0).then(|| 1 + data.len() / (2 + data.len() % 3))
+}
+
+/// Some(piece): the kernel delivers at most that many bytes per read(2) while this path is read
+pub fn short_read_piece(p: &[u8]) -> Option<usize> {
+    (p.iter().map(|b| *b as usize).sum::<usize>() % 3 == 0).then_some(61)
+}
+
 fn shape_cda(info: &Info) -> &'static str {
     if info.nsep == 0 {
         "single component"
@@ -197,7 +227,7 @@ fn pshow(p: &[u8]) -> String {
 
 fn show_op(op: &ROp) -> String {
     match op {
-        ROp::Write { p, data } => format!("write({}, {} bytes)", pshow(p), data.len()),
+        ROp::Write { p, data } => format!("write({}, {} bytes){}", pshow(p), data.len(), short_write_piece(data).map(|k| format!(" [kernel takes <= {k} bytes per write(2)]")).unwrap_or_default()),
         ROp::Read { p } => format!("read({})", pshow(p)),
         ROp::ReadToString { p } => format!("read_to_string({})", pshow(p)),
         ROp::Copy { src, dst, pre: None, clamp } => format!("copy_file({}, {}){}", pshow(src), pshow(dst), clamp.map(|c| format!(" [kernel copies <= {c} bytes per call]")).unwrap_or_default()),
@@ -393,8 +423,9 @@ pub fn run_case(env: &Env, case: &Case) -> CaseResult {
             ROp::RemoveDir { .. } => rep.class_if(must, "remove_dir"),
             ROp::CreateDir { .. } => rep.class_if(must, "create_dir"),
             ROp::Metadata { .. } => rep.class_if(must, "metadata-existing"),
-            ROp::Write { .. } => {
+            ROp::Write { data, .. } => {
                 if must {
+                    rep.class_if(short_write_piece(data).is_some(), "write-taken-in-pieces-by-the-kernel");
                     rep.class_if(info.old_dst_len.is_none(), "write-creates");
                     rep.class_if(info.old_dst_len.is_some(), "write-overwrites");
                 }
